@@ -1028,3 +1028,96 @@ mod test {
         }
     }
 }
+
+/// Verification hooks (cargo feature `verif`): plain-data views of the private tables and thin
+/// wrappers around the private look-ups. Nothing here changes behaviour.
+#[cfg(feature = "verif")]
+impl DebugInformation {
+    /// `fn_ranges` of a unit (loads the lazy part the same way the look-ups do):
+    /// (begin, end, die offset)
+    pub fn verif_fn_ranges(&self, unit_idx: usize) -> Vec<(u64, u64, usize)> {
+        let unit = self.unit_ensure(unit_idx);
+        let die_ranges = resolve_unit_call!(self.dwarf(), unit, fn_ranges);
+        die_ranges
+            .iter()
+            .map(|dr| (dr.range.begin, dr.range.end, dr.die_off.0))
+            .collect()
+    }
+
+    /// `function_index` of a unit: (die offset, name, `FatDieRef::<Function>::ranges()`)
+    pub fn verif_fn_infos(&self, unit_idx: usize) -> Vec<(usize, Option<String>, Vec<(u64, u64)>)> {
+        let unit = self.unit_ensure(unit_idx);
+        let _ = resolve_unit_call!(self.dwarf(), unit, fn_ranges);
+        unit.verif_function_index()
+            .unwrap_or_default()
+            .into_iter()
+            .map(|(off, name)| {
+                let ranges = FatDieRef::new_func(self, unit_idx, UnitOffset(off))
+                    .ranges()
+                    .iter()
+                    .map(|r| (r.begin, r.end))
+                    .collect();
+                (off, name, ranges)
+            })
+            .collect()
+    }
+
+    /// `files_index.get(tpl)`: (unit index, row indices)
+    pub fn verif_files_index_get(&self, file_tpl: &str) -> Vec<(usize, Vec<usize>)> {
+        self.files_index.get(file_tpl).into_iter().cloned().collect()
+    }
+
+    /// `find_unit_by_pc`: registry index of the unit
+    pub fn verif_find_unit_by_pc(&self, pc: GlobalAddress) -> Result<Option<usize>, Error> {
+        Ok(self.find_unit_by_pc(pc)?.map(|u| u.idx()))
+    }
+
+    /// `find_function_by_pc`: (unit index, die offset)
+    pub fn verif_find_function_by_pc(
+        &self,
+        pc: GlobalAddress,
+    ) -> Result<Option<(usize, usize)>, Error> {
+        Ok(self.find_function_by_pc(pc)?.map(|(f, _)| {
+            let (ui, off) = f.verif_unit_and_offset();
+            (ui, off.unwrap_or(usize::MAX))
+        }))
+    }
+
+    /// `find_closest_place`: (unit index, pos_in_unit) in result order
+    pub fn verif_find_closest_place(
+        &self,
+        file_tpl: &str,
+        line: u64,
+    ) -> Result<Vec<(usize, usize)>, Error> {
+        Ok(self
+            .find_closest_place(file_tpl, line)?
+            .into_iter()
+            .map(|p| (p.verif_unit_idx(), p.pos_in_unit))
+            .collect())
+    }
+
+    /// `FatDieRef::new_func(self, unit_idx, off).prolog_end_place()`: (unit index, pos_in_unit)
+    pub fn verif_prolog_end_place(
+        &self,
+        unit_idx: usize,
+        die_off: usize,
+    ) -> Result<(usize, usize), Error> {
+        let fref = FatDieRef::new_func(self, unit_idx, UnitOffset(die_off));
+        let place = fref.prolog_end_place()?;
+        Ok((place.verif_unit_idx(), place.pos_in_unit))
+    }
+
+    /// `find_place_from_pc` / `find_exact_place_from_pc`: (unit index, pos_in_unit)
+    pub fn verif_find_place_from_pc(
+        &self,
+        pc: GlobalAddress,
+        exact: bool,
+    ) -> Result<Option<(usize, usize)>, Error> {
+        let p = if exact {
+            self.find_exact_place_from_pc(pc)?
+        } else {
+            self.find_place_from_pc(pc)?
+        };
+        Ok(p.map(|p| (p.verif_unit_idx(), p.pos_in_unit)))
+    }
+}
